@@ -122,7 +122,19 @@ fn mutate(rng: &mut Rng, text: &[u8]) -> Vec<u8> {
         if t.is_empty() {
             break;
         }
-        match rng.below(9) {
+        match rng.below(10) {
+            9 => {
+                // DOS line endings (this build of n2 has no CRLF support: must be a clean diagnostic)
+                let mut u = Vec::with_capacity(t.len() + 16);
+                let all = rng.chance(1, 2);
+                for &c in t.iter() {
+                    if c == b'\n' && (all || rng.chance(1, 4)) {
+                        u.push(b'\r');
+                    }
+                    u.push(c);
+                }
+                t = u;
+            }
             0 => {
                 // truncate
                 let at = rng.below(t.len() + 1);
